@@ -74,16 +74,9 @@ def obligations(c, facts, b, prefix):
 
     from . import innerval
 
-    EV, why_not = innerval.cached(facts, b, an)
-    if EV is not None:
-        # the inner function itself was run (vlib/innerval.py): its result and what it hands to the precedence parser are read
-        # off the runs, whatever way the statements are written
-        c.ob(rule, innerk, "the tree returned is the precedence parser's result", EV["ok_tree"], innerval.how(EV) + (" — " + EV["detail"] if not EV["ok_tree"] else ""))
-        c.ob(rule, innerk, "the lexer's tokens reach the precedence parser unchanged (options aside)", EV["ok_tokens"] and EV["ok_empty"], innerval.how(EV) + (" — " + EV["detail"] if not (EV["ok_tokens"] and EV["ok_empty"]) else ""), witness="! ! -true" if not (EV["ok_tokens"] and EV["ok_empty"]) else None)
-        return
     S = c06.inner_summary(b, facts.fn(innerk))
     okr = bool(S.ret) and len(S.ret) == 2 and S.ret[1]["v"] == "applied" and S.ret[1]["fn"] == entry and not S.unknown
-    c.ob(rule, innerk, "the tree returned is the precedence parser's result", okr, "returned tree comes from %s; statements not understood: %s" % (S.ret[1].get("fn") if S.ret and len(S.ret) == 2 else None, S.unknown or "none"))
+    detr = "returned tree comes from %s; statements not understood: %s" % (S.ret[1].get("fn") if S.ret and len(S.ret) == 2 else None, S.unknown or "none")
     # chain from the precedence parser's argument back to the lexer: only the option rewrite in between
     ap = [e for e in S.events if e["e"] == "apply" and e["fn"] == entry]
     okc, detc = None, "the precedence parser is applied %d times" % len(ap)
@@ -101,6 +94,15 @@ def obligations(c, facts, b, prefix):
         others = [t_ for t_ in S.traversals() if t_ not in hops and t_["mode"] in ("map", "mutate")]
         okc = from_lex and good_hops and not others and not S.unknown
         detc = "tokens handed to %s: lexer output: %s; rewrites on the way: %d (only `misplaced option → -true`: %s); other list rewrites: %d" % (entry.split("::")[-1], from_lex, len(hops), good_hops, len(others))
+    # the statement summary establishes the obligation for lists of any length; where it does not recognise the statements,
+    # the function is evaluated on scenarios instead (vlib/innerval.py)
+    if not (okr and okc):
+        EV, why_not = innerval.cached(facts, b, an)
+        if EV is not None:
+            okr, detr = EV["ok_tree"], innerval.how(EV) + (" — " + EV["detail"] if not EV["ok_tree"] else "")
+            okc = EV["ok_tokens"] and EV["ok_empty"]
+            detc = innerval.how(EV) + (" — " + EV["detail"] if not okc else "")
+    c.ob(rule, innerk, "the tree returned is the precedence parser's result", okr, detr)
     c.ob(rule, innerk, "the lexer's tokens reach the precedence parser unchanged (options aside)", okc, detc, witness="! ! -true" if okc is False else None)
 
 
